@@ -34,3 +34,28 @@ Example C10_example :
   tokenize dl_generic std_uni true (s2l "a" ++ [cLF] ++ s2l " 'bc") =
   LexErr EUnterminatedString (2, 2) [(TWord (s2l "a") None, (1, 1)); (TWs WNewline, (1, 2)); (TWs WSpace, (2, 1))].
 Proof. vm_compute. reflexivity. Qed.
+
+(** Parser level (cursor interface model, Machine.v): every token handed out by the cursor is
+    an element of the token vector or the EOF sentinel with location (0,0); the sentinel is
+    returned iff only whitespace remains; and [expected] builds its message from the text and
+    the location of one and the same token — so an "Expected ..., found: T at Line l, Column c"
+    produced from a cursor token names a real token of the input at its own position (by C09,
+    the start of that token), and end-of-input errors carry no position. *)
+Require Import SqlV.Machine SqlV.Provenance.
+
+Theorem C10_cursor_provenance : forall d s,
+  (forall n t s', peek_nth_token n d s = (Machine.Ok t, s') -> In t (toks s) \/ t = eof_twl) /\
+  (forall t s', Machine.next_token d s = (Machine.Ok t, s') -> In t (toks s) \/ t = eof_twl) /\
+  (forall n t s', peek_nth_token_no_skip n d s = (Machine.Ok t, s') -> In t (toks s) \/ t = eof_twl) /\
+  (forall t s', next_token_no_skip d s = (Machine.Ok (Some t), s') -> In t (toks s)).
+Proof. exact cursor_provenance. Qed.
+Print Assumptions C10_cursor_provenance.
+
+Theorem C10_sentinel_iff_exhausted : forall d s, ~ In eof_twl (toks s) ->
+  (fst (peek_token d s) = Machine.Ok eof_twl <-> remaining s = []) /\
+  (fst (Machine.next_token d s) = Machine.Ok eof_twl <-> remaining s = []).
+Proof. exact sentinel_iff_exhausted. Qed.
+Print Assumptions C10_sentinel_iff_exhausted.
+
+Check expected_coupled.
+Check expect_token_error.
